@@ -224,6 +224,9 @@ def _mk_filter(fspec, rec, g):
             return True
         if kind == "rejprod":
             return not (action is REDUCE and production.prod_id == fspec[1])
+        if kind == "rejpl":
+            return not (action is REDUCE and production.prod_id == fspec[1]
+                        and context.token_ahead.symbol.name == fspec[2])
         if kind == "rand":
             return state["rng"].random() < fspec[2]
         if kind == "prec":
@@ -253,7 +256,21 @@ def _mk_filter(fspec, rec, g):
                         and subresults is None})
             return None
         v = bool(decide(action, from_state, production, context))
-        rec.append({"k": "S" if action is SHIFT else ("R" if action is REDUCE else "?"),
+        merged = revisit = False
+        if hasattr(context, "root"):
+            if action is SHIFT:
+                merged = bool(context.head.parents)
+            else:
+                import sys
+                fr = sys._getframe(1)
+                for _ in range(6):
+                    if fr is None:
+                        break
+                    if fr.f_code.co_name == "_do_reductions":
+                        revisit = fr.f_locals.get("update_parent") is not None
+                        break
+                    fr = fr.f_back
+        rec.append({"merged": merged, "revisit": revisit,"k": "S" if action is SHIFT else ("R" if action is REDUCE else "?"),
                     "from": from_state, "to": to_state, "prod": production,
                     "subs": list(subresults) if subresults is not None else None,
                     "subs_is_list": subresults is None or isinstance(subresults, list),
@@ -446,6 +463,7 @@ def _run_lr(p, w, fspec, g, gi):
                                  1 if (a.action is REDUCE and len(a.prod.rhs) == 0) else 0])
         r["passed_over"] = over
         r["ncalls"] = len(rec)
+        r["stale_token"] = len([c for c in rec if c["k"] == "S" and c["token"] is not c["ahead"]])
     del rec[:]
     del steps[:]
     return r
@@ -481,6 +499,28 @@ def prods_in(txt_tree):
     return out
 
 
+def has_node_before(t, k, y, stop):
+    """stripped tree t has a node of production k whose span is followed by a token of
+    terminal y (STOP after the last leaf)"""
+    leaves = []
+    hits = []
+
+    def go(n):
+        if n[0] == 0:
+            leaves.append(n[1])
+            return
+        for c in n[2]:
+            go(c)
+        if n[1] == k:
+            hits.append(len(leaves))      # index of the leaf that follows the node
+    go(t)
+    for i in hits:
+        nxt = leaves[i] if i < len(leaves) else stop
+        if nxt == y:
+            return True
+    return False
+
+
 def _run_glr(p, w, gi):
     import parglare
     from lib import impl
@@ -505,7 +545,8 @@ def _run_glr(p, w, gi):
             r["approved"] = []
         r["ncalls"] = len(rec)
         r["nrej"] = len([c for c in rec if c["k"] != "init" and not c["v"]])
-        r["merged_shift_calls"] = 0
+        r["merged_shift_calls"] = len([c for c in rec if c.get("merged")])
+        r["revisit_reduce_calls"] = len([c for c in rec if c.get("revisit")])
     del rec[:]
     return r
 
@@ -538,6 +579,9 @@ def _filters_for(job, g, spec_has_prec, rng):
     rng.shuffle(cands)
     for k in cands[:2]:
         fl.append(("rejprod", k))
+    tnames = [t.name for t in g.terminals.values() if t.name not in ("EMPTY",)]
+    for _ in range(2):
+        fl.append(("rejpl", rng.choice(cands), rng.choice(tnames)))
     for _ in range(job["nrand"]):
         fl.append(("rand", rng.randrange(1 << 30), rng.choice([0.5, 0.75, 0.9])))
     return fl
@@ -576,6 +620,7 @@ def _worker(job):
     out["grammar"] = impl.model_grammar(gi)
     out["terms"] = impl.dump_terms(gi)
     out["stop"] = impl.stop_id(gi)
+    out["term_names"] = [t.name for t in gi.terms]
     out["dyn_terms"] = [i for i, t in enumerate(gi.terms) if getattr(t, "dynamic", False)]
     out["dyn_prods"] = [p.prod_id for p in g.productions if p.dynamic]
     inputs = job["inputs"]
@@ -627,7 +672,7 @@ def _worker(job):
         gp0 = _build(GLRParser, g, ("none",))
         gbase = {w: _run_glr(gp0, w, gi) for w in inputs}
         out["glr_base"] = gbase
-        for fspec in filters[:3] + filters[3:5]:
+        for fspec in filters[:7]:
             gp = _build(GLRParser, g, fspec)
             out["glr"].append({"fspec": fspec, "res": {w: _run_glr(gp, w, gi) for w in inputs}})
     except BaseException as e:  # noqa
@@ -699,7 +744,9 @@ def run(ctx):
           "glr_rejprod_pruned_nontrivially": 0, "prec_lr_compared": 0, "prec_glr_compared": 0,
           "prec_partial_glr_contains_static": 0, "prec_mixed_compared": 0, "acc_vs_nofilter_lr": 0,
           "tables_checked": 0, "cells_single_true": 0, "model_out_of_fuel": 0, "mark_modes": {},
-          "second_parse_same": 0, "filters": {}, "kf_instances": 0}
+          "second_parse_same": 0, "filters": {}, "kf_instances": 0, "glr_rejpl_checked": 0,
+          "glr_rejpl_pruned_nontrivially": 0, "glr_merged_head_shift_calls": 0,
+          "glr_revisit_reduce_calls": 0, "lr_shift_calls_with_stale_context_token": 0}
     mcases, meta = [], []
     wsl = [ord(c) for c in WS]
     distinct = set()
@@ -763,6 +810,7 @@ def run(ctx):
                     st["lr_runs"] += 1
                     st["lr_kinds"][res["kind"]] = st["lr_kinds"].get(res["kind"], 0) + 1
                     st["lr_calls"] += res["ncalls"]
+                    st["lr_shift_calls_with_stale_context_token"] += res.get("stale_token", 0)
                     rep = rep_of(r, c, fspec, w)
                     for e in res["shape"]:
                         ctx.violation("LR filter call trace violates the property: " + e, rep,
@@ -815,6 +863,8 @@ def run(ctx):
                 st["glr_kinds"][res["kind"]] = st["glr_kinds"].get(res["kind"], 0) + 1
                 st["glr_calls"] += res.get("ncalls", 0)
                 st["glr_rejections"] += res.get("nrej", 0)
+                st["glr_merged_head_shift_calls"] += res.get("merged_shift_calls", 0)
+                st["glr_revisit_reduce_calls"] += res.get("revisit_reduce_calls", 0)
                 rep = rep_of(r, None, fspec, w, glr=True)
                 if res["kind"].startswith("exc:"):
                     ctx.violation("GLRParser.parse raised %s under a filter" % res["kind"], rep, key="glr-exc")
@@ -855,6 +905,27 @@ def run(ctx):
                                           "expected the %d unfiltered trees that do not use it"
                                           % (k, "dynamic" if k in r["dyn_prods"] else "not dynamic", len(got),
                                              len(exp)), rep, key="glr-rejprod")
+                    elif b["kind"] == "SyntaxError" and res["kind"] == "ok":
+                        ctx.violation("GLR: input rejected without a filter is accepted with a rejecting filter",
+                                      rep, key="glr-rej-accepts")
+                if fspec[0] == "rejpl" and not r["spec"].get("raw"):
+                    k, yname = fspec[1], fspec[2]
+                    y = r["term_names"].index(yname)
+                    if b["kind"] == "ok" and "trees" in b and not (res["kind"] == "ok" and "trees" not in res):
+                        st["glr_rejpl_checked"] += 1
+                        if k in r["dyn_prods"]:
+                            exp = [t for t in b["trees"]
+                                   if not has_node_before(common.sx_parse(t), k, y, r["stop"])]
+                            if 0 < len(exp) < len(b["trees"]):
+                                st["glr_rejpl_pruned_nontrivially"] += 1
+                        else:
+                            exp = b["trees"]
+                        got = res.get("trees", []) if res["kind"] == "ok" else []
+                        if got != exp:
+                            ctx.violation("GLR: rejecting the reductions of production %d (%s) before %s gives %d "
+                                          "trees, expected %d (the unfiltered trees without such a node)"
+                                          % (k, "dynamic" if k in r["dyn_prods"] else "not dynamic", yname,
+                                             len(got), len(exp)), rep, key="glr-rejpl")
                     elif b["kind"] == "SyntaxError" and res["kind"] == "ok":
                         ctx.violation("GLR: input rejected without a filter is accepted with a rejecting filter",
                                       rep, key="glr-rej-accepts")
